@@ -81,6 +81,10 @@ def make_cert(kind="ec", cn="localhost", serial=None, with_bc=True, issuer=None,
     if kind == "rsa":
         key = rsa.generate_private_key(public_exponent=65537, key_size=2048)
         alg = hashes.SHA256()
+    elif kind == "rsa1024":
+        # a legacy key size OpenSSL refuses at its default security level ("ee key too small")
+        key = rsa.generate_private_key(public_exponent=65537, key_size=1024)
+        alg = hashes.SHA256()
     elif kind == "ec":
         key = ec.generate_private_key(ec.SECP256R1())
         alg = hashes.SHA256()
